@@ -204,3 +204,14 @@ N("compact-canonical-tightening", ["C16", "C17"],
    ("src/support/scale.rs", "                if (0b0011_1111_1111_1111..=u32::MAX >> 2).contains(&x) {", "                if (1 << 14..1 << 30).contains(&x) {")])
 B("compact-two-byte-too-tight", ["C16"],
   [("src/support/scale.rs", "                if (0b0011_1111..=0b0011_1111_1111_1111).contains(&x) {", "                if (1 << 6..(1 << 14) - 1).contains(&x) {")], "two-byte")
+
+# ---- R-GUARD/fixed-length (defect F17, found by the rule; the breaking case re-creates it)
+B("fixedlen-ssz-accepts-short", ["C17"],
+  [("src/support/ssz.rs", "        if bytes.len() != nbytes(BITS) {", "        if bytes.len() > nbytes(BITS) {")], "from_ssz_bytes|length")
+N("fixedlen-ssz-match-form", ["C17", "C16"],
+  [("src/support/ssz.rs", "        if bytes.len() != nbytes(BITS) {\n            return Err(DecodeError::InvalidByteLength {\n                len:      bytes.len(),\n                expected: nbytes(BITS),\n            });\n        }\n",
+    "        let expected = nbytes(BITS);\n        match bytes.len() == expected {\n            true => {}\n            false => {\n                return Err(DecodeError::InvalidByteLength {\n                    len: bytes.len(),\n                    expected,\n                })\n            }\n        }\n")])
+
+# ---- R-TOTAL/overflow-checks on C16 (defect F16, re-created)
+B("ovf-scale-size_hint-256-bit-formula", ["C16"],
+  [("src/support/scale.rs", "            _ => self.0.byte_len() + 1,\n", "            _ => (32 - self.0.leading_zeros() / 8) + 1,\n")], "Overflow(Sub:32")
